@@ -709,13 +709,15 @@ def crash_key(detail):
         return TL.KEY_UB_STRHASH
     if "heap-use-after-free" in detail and "read_pax_header" in detail:
         return TL.KEY_UAF_PAX
+    if "null pointer passed as argument" in detail and "glob_files" in detail:
+        return TL.KEY_GLOB_NOPACKDIR     # glob line in a pack file read without any pack directory: strlen(NULL) / opendir(NULL)
     return None
 
 
 def classify_tar(ctx, T, job, res):
     """turn oracle failures of one tar job into (key, what) pairs"""
     out = []
-    label, data, expect = job
+    label, data, expect = job[:3]
     for clause, detail in res["bad"]:
         key = None
         if clause == "terminates":
@@ -748,7 +750,7 @@ def classify_tar(ctx, T, job, res):
             key = TL.KEY_NODIAG_TAR           # the iterator reported an error that process_tarball does not print
         if key is None and clause == "terminates":
             # not a known non-termination: believe it only if it reproduces alone with a 12x longer limit
-            again = T.run_tar(data, expect, timeout=TL.TIMEOUT * 12)
+            again = T.run_tar(data, expect, timeout=TL.TIMEOUT * 12, opts=job[3])
             if not any(c == "terminates" for c, _ in again["bad"]):
                 T.slow += 1
                 continue
@@ -777,78 +779,138 @@ def pack_to_hl(pack):
     return "hl " + " ".join(toks)
 
 
+TAR_OPTS = [["-s"], ["-x"], ["-k"], ["-e"], ["-T"], ["-s", "-x"], ["-r", "usr"], ["-r", "usr", "-S"], ["-r", "../x"], ["-E", "*a*"],
+            ["-E", "["], ["-b", "4096"], ["-c", "xz"], ["-c", "zstd", "-e", "-T"], ["-d", "uid=1,gid=2,mode=0700"]]
+
+
+def tar_limits():
+    src = (vlib.LEAN / "Sqfs" / "Generated" / "Consts.lean").read_text()
+    out = {}
+    for kind, name in (("L", "tarMaxPathLen"), ("K", "tarMaxSymlinkLen"), ("x", "tarMaxPaxLen")):
+        m = re.search(r"def %s : Nat := (\d+)" % name, src)
+        infra(m is not None, "Sqfs/Generated/Consts.lean has no %s" % name)
+        out[kind] = int(m.group(1))
+    return out
+
+
 def check_tools(ctx, stats):
     T = TL.Tools(ctx)
     rng = ctx.rng
     q = ctx.quick()
     seeds = tar_seeds()
+    infra(len(seeds) >= 20, "only %d reference archives found below %s" % (len(seeds), vlib.REPO))
     small = [(n, d) for n, d in seeds if len(d) <= 3072]
+    infra(len(small) >= 3, "no small reference archives to truncate")
     small.sort(key=lambda nd: (not any(t in nd[0] for t in ("format-acceptance/pax", "xattr/xattr-schily.tar", "long-paths/gnu")), nd[0]))
-    tjobs = []                                           # (label, data, expect_members)
+    tjobs = []                                           # (label, data, expect_members, options, must_reject)
+    def tjob(label, data, expect=None, opts=(), must_reject=None):
+        tjobs.append((label, data, expect, tuple(opts), must_reject))
     cdir = vlib.CORPUS / "C07"
     if cdir.exists():
         for p in sorted(cdir.glob("*.tar*")):
             markers = [b"after%d" % i for i in range(12)] if p.name.startswith("d22_") else None
-            tjobs.append(("corpus/" + p.name, p.read_bytes(), markers))
+            tjob("corpus/" + p.name, p.read_bytes(), markers)
     for n, d in seeds:
-        tjobs.append(("seed:" + n, d, None))
+        tjob("seed:" + n, d)
     # hard-link graphs as archives (D12 at tool level)
     for _ in range(10 if q else 60):
         k = rng.randint(1, 5)
         names = [b"h%d" % i for i in range(k)]
         pairs = [(nm, rng.choice(names + [b"f0", b"f0", b"missing", b"f0/x", b"."])) for nm in names]
-        if q:   # keep the number of (known) spinning archives small in the quick tier: mostly chains
-            pairs = [(nm, rng.choice(names[:i] + [b"f0", b"missing"]) if rng.random() < 0.8 else t) for i, (nm, t) in enumerate(pairs)]
-        tjobs.append(("hl:random", TL.tar_hardlinks(pairs, [b"f0"]), None))
+        tjob("hl:random", TL.tar_hardlinks(pairs, [b"f0"]))
     # inconsistent sparse maps (D22) with marker members
     for _ in range(12 if q else 200):
         data, markers = TL.tar_sparse_inconsistent(rng)
-        tjobs.append(("sparse:inconsistent", data, markers))
-    # structure-aware mutations of every dialect
+        tjob("sparse:inconsistent", data, markers)
+    # extension records around TAR_MAX_PATH_LEN / _SYMLINK_LEN / _PAX_LEN with all their data present
+    limits = tar_limits()
+    for _ in range(24 if q else 300):
+        data, rej = TL.tar_size_gate(rng, limits)
+        tjob("gate:" + ("over" if rej else "within"), data, None, (), "extension record larger than the implementation limit" if rej else None)
+    # names nested around / far beyond SQFS_MAX_DIR_NESTING (recursion in the tree post-processing and the writers)
+    limit = max_dir_nesting()
+    for n in ([limit - 1, limit, limit + 1, limit + 2, 3 * limit, 30000] if q else
+              [limit - 1, limit, limit + 1, limit + 2, 2 * limit, 3 * limit, 10000, 20000, 30000, 32768]):
+        for kind in "df":
+            tjob("deep:%d%s" % (n, kind), TL.tar_deep(rng, n, kind))
+    # structure-aware mutations of every dialect, a third of them with non-default options
     for _ in range(900 if q else 8000):
         n, d = rng.choice(seeds)
         m = TL.mutate_tar(rng, d)
         for _ in range(rng.choice([0, 0, 0, 1, 2])):
             m = TL.mutate_tar(rng, m)
-        tjobs.append(("mut:" + n, m, None))
+        tjob("mut:" + n, m, None, rng.choice(TAR_OPTS) if rng.random() < 0.33 else ())
     # truncation of small archives
     for idx, (n, d) in enumerate(small[:3] if q else small):
         step = 37 if q else (1 if idx < 4 else 16)      # thorough: every offset of four archives (pax, xattr, gnu long path, …)
         for cut in sorted(set(list(range(0, len(d), step)) + [511, 512, 513, 1023, 1024, 1025, len(d) - 1])):
             if cut < len(d):
-                tjobs.append(("trunc:%s@%d" % (n, cut), d[:cut], None))
-    # compressed streams, corrupted (the gzip hang is a known finding owned by C15: few of those in the quick tier)
+                tjob("trunc:%s@%d" % (n, cut), d[:cut], None, ["-s"] if rng.random() < 0.2 else ())
+    # compressed streams, corrupted
     base = dict(seeds)["bin/tar2sqfs/test/simple.tar"]
     for codec, cd in TL.compress_variants(base).items():
-        tjobs.append(("z:%s:intact" % codec, cd, None))
-        ncor = (1 if codec == "gz" else 25) if q else (24 if codec == "gz" else 400)
+        tjob("z:%s:intact" % codec, cd)
+        ncor = 25 if q else 400
         for _ in range(ncor):
-            tjobs.append(("z:%s:corrupt" % codec, TL.corrupt_stream(rng, cd), None))
+            tjob("z:%s:corrupt" % codec, TL.corrupt_stream(rng, cd))
 
-    gjobs = []                                           # (label, pack, sort, xattr)
-    gjobs.append(("seed", TL.PACK_SEED, TL.SORT_SEED, TL.XATTR_SEED))
+    gjobs = []                                           # (label, pack, sort, xattr, mode, must_accept)
+    def gjob(label, pack, sort=None, xattr=None, mode="D", must_accept=None):
+        gjobs.append((label, pack, sort, xattr, mode, must_accept))
+    gjob("seed", TL.PACK_SEED, TL.SORT_SEED, TL.XATTR_SEED, "D", ["etc/passwd", "gl/a.txt"])
     for p in sorted(cdir.glob("*.txt")) if cdir.exists() else []:
         txt = p.read_bytes().decode("latin-1")
-        if p.name.startswith("pack"):
-            gjobs.append(("corpus/" + p.name, txt, None, None))
+        if p.name.startswith("nodir_pack"):
+            gjob("corpus/" + p.name, txt, mode="nodir")
+        elif p.name.startswith("pack"):
+            gjob("corpus/" + p.name, txt)
         elif p.name.endswith("_xattr.txt"):
-            gjobs.append(("corpus/" + p.name, TL.PACK_SEED, None, txt))
+            gjob("corpus/" + p.name, TL.PACK_SEED, None, txt)
         elif p.name.endswith("_sort.txt"):
-            gjobs.append(("corpus/" + p.name, TL.PACK_SEED, txt, None))
+            gjob("corpus/" + p.name, TL.PACK_SEED, txt, None)
+    # every keyword x every way of (not) having a pack directory x with / without its optional location
+    for label, text, mode in TL.pack_keyword_matrix():
+        gjob(label, text, mode=mode)
+    for mode in TL.GEN_MODES + ("dironly",):
+        gjob("seed:" + mode, TL.PACK_SEED, TL.SORT_SEED, TL.XATTR_SEED, mode)
+        gjob("seed-sort:" + mode, TL.PACK_SEED, TL.SORT_SEED, None, mode)
+        gjob("seed-xattr:" + mode, TL.PACK_SEED, None, TL.XATTR_SEED, mode)
+    # a real directory with a few hundred entries through every glob option
+    for extra in ("", "-type f", "-type d", "-type l -type p", "-name \"*.txt\"", "-path \"*d1/*\"", "-nonrecursive", "-xdev -keeptime",
+                  "-name \"[\"", "-name \"" + "*" * 60 + "x\"", "-type f -name \"f0?[0-5]*\" --"):
+        gjob("glob:many", "glob /m 0755 0 0 %s many\n" % extra, must_accept=[] if "[" not in extra else None)
+        gjob("glob:links", "glob /l 0755 0 0 %s links\n" % extra)
+    gjob("glob:links", "glob / 0755 0 0 links\n")
+    gjob("glob:links", "glob /l 0755 0 0 -nohardlinks links\n", must_accept=["l/two"])
     for _ in range(350 if q else 3000):
-        gjobs.append(("mut:pack", TL.mutate_text(rng, TL.PACK_SEED), None, None))
+        gjob("mut:pack", TL.mutate_text(rng, TL.PACK_SEED), mode=rng.choice(["D"] * 6 + ["nodir", "slashdir", "D-rel"]))
     for _ in range(200 if q else 1500):
-        gjobs.append(("mut:sort", TL.PACK_SEED, TL.mutate_text(rng, TL.SORT_SEED), None))
+        gjob("mut:sort", TL.PACK_SEED, TL.mutate_text(rng, TL.SORT_SEED), None, rng.choice(["D"] * 6 + ["nodir", "dironly"]))
     for _ in range(200 if q else 1500):
-        gjobs.append(("mut:xattr", TL.PACK_SEED, None, TL.mutate_text(rng, TL.XATTR_SEED)))
+        gjob("mut:xattr", TL.PACK_SEED, None, TL.mutate_text(rng, TL.XATTR_SEED), rng.choice(["D"] * 6 + ["nodir", "dironly"]))
     for _ in range(60 if q else 600):
-        gjobs.append(("hl:pack", TL.pack_hardlink_graph(rng), None, None))
+        gjob("hl:pack", TL.pack_hardlink_graph(rng))
+    # valid inputs larger than the istream buffer: the line at the boundary must come through unharmed
+    B = istream_bufsz()
+    for _ in range(9 if q else 90):
+        for kind in ("pack", "sort", "xattr"):
+            text, want = TL.big_text(rng, kind, B)
+            if kind == "pack":
+                gjob("big:pack", text, None, None, "D", want)
+            elif kind == "sort":
+                gjob("big:sort", TL.PACK_SEED, text, None, "D", want)
+            else:
+                gjob("big:xattr", TL.PACK_SEED, None, text, "D", want)
+    for n in (limit - 1, limit, limit + 1, 3 * limit, 30000):
+        gjob("deep:%d" % n, TL.pack_deep(n, "dir"))
+        gjob("deep:%df" % n, TL.pack_deep(n, "file"))
 
     t0 = time.time()
     ctx.log("tool level: %d tar jobs, %d gensquashfs jobs, %d workers" % (len(tjobs), len(gjobs), jobs(ctx)))
     with ThreadPoolExecutor(max_workers=jobs(ctx)) as ex:
-        tres = list(ex.map(lambda j: T.run_tar(j[1], j[2]), tjobs))
-        gres = list(ex.map(lambda j: T.run_gen(j[1], j[2], j[3]), gjobs))
+        tres = list(ex.map(lambda j: T.run_tar(j[1], j[2], opts=j[3], must_reject=j[4]), tjobs))
+        gres = list(ex.map(lambda j: T.run_gen(j[1], j[2], j[3], mode=j[4], must_accept=j[5]), gjobs))
+    infra(len(tres) == len(tjobs) and len(gres) == len(gjobs), "tool level: results missing")
     hist, shown = {}, {}
     nviol = 0
     for job, res in zip(tjobs, tres):
@@ -861,10 +923,12 @@ def check_tools(ctx, stats):
             shown[fam] = shown.get(fam, 0) + 1
             if shown[fam] <= 3:
                 ctx.violation(key, what, {"unit": "tool-tar", "label": job[0], "data_b64": base64.b64encode(job[1]).decode(),
-                                          "expect_members": [m.decode() for m in job[2]] if job[2] else None})
+                                          "expect_members": [m.decode() for m in job[2]] if job[2] else None,
+                                          "opts": list(job[3]), "must_reject": job[4]})
     for job, res in zip(gjobs, gres):
         outcome = "exit %s" % (res["rc"] if res["rc"] in (0, "timeout") else "!=0")
-        hist["gen %s → %s" % (job[0].split("/")[0], outcome)] = hist.get("gen %s → %s" % (job[0].split("/")[0], outcome), 0) + 1
+        gcls = job[0].split("/")[0].split(":")[0] + ("[%s]" % job[4] if job[4] != "D" else "")
+        hist["gen %s → %s" % (gcls, outcome)] = hist.get("gen %s → %s" % (gcls, outcome), 0) + 1
         for clause, detail in res["bad"]:
             key = None
             if clause == "terminates":
@@ -873,26 +937,28 @@ def check_tools(ctx, stats):
                     key = KEY_D12
             if clause == "no-crash":
                 key = crash_key(detail)
-            if clause == "failure-diagnostic" and job[3] is not None and T.run_gen(job[1], job[2], None)["rc"] == 0:
+            if clause == "failure-diagnostic" and job[3] is not None and T.run_gen(job[1], job[2], None, mode=job[4])["rc"] == 0:
                 key = TL.KEY_NODIAG_XATTR     # fails only with the xattr map file, silently: apply_dfs drops the error
-            if clause == "failure-diagnostic" and job[2] is not None and T.run_gen(job[1], None, job[3])["rc"] == 0 \
+            if clause == "failure-diagnostic" and job[2] is not None and T.run_gen(job[1], None, job[3], mode=job[4])["rc"] == 0 \
                     and any(SORT_TRAILING.match(l.strip()) for l in job[2].replace("\r", "").splitlines()):
                 key = TL.KEY_NODIAG_SORT      # quoted file name followed by more characters: decode_filename returns -1 silently
             if key is None and clause == "terminates":
-                again = T.run_gen(job[1], job[2], job[3], timeout=TL.TIMEOUT * 12)
+                again = T.run_gen(job[1], job[2], job[3], timeout=TL.TIMEOUT * 12, mode=job[4])
                 if not any(c == "terminates" for c, _ in again["bad"]):
                     T.slow += 1
                     continue
             if key is None:
-                key = "tool-gen:%s:%s" % (clause, vlib.sha(repr(job[1:]))[:12])
+                key = "tool-gen:%s:%s" % (clause, vlib.sha(repr(job[1:5]))[:12])
             nviol += 1
             fam = "tool-gen:" + clause if key.startswith("tool-gen") else key
             shown[fam] = shown.get(fam, 0) + 1
             if shown[fam] <= 3:
                 ctx.violation(key, "%s [%s]: %s" % (clause, job[0], san_head(detail) if clause == "no-crash" else detail),
-                              {"unit": "tool-gen", "label": job[0], "pack": job[1], "sort": job[2], "xattr": job[3]})
+                              {"unit": "tool-gen", "label": job[0], "pack": job[1], "sort": job[2], "xattr": job[3], "mode": job[4],
+                               "must_accept": job[5]})
     stats["tools"] = {"tar_jobs": len(tjobs), "gensquashfs_jobs": len(gjobs), "timeout_s": TL.TIMEOUT, "wall_s": round(time.time() - t0, 1),
                       "outcome_histogram": dict(sorted(hist.items())), "oracle_failures": nviol, "timeouts_not_reproduced_in_isolation": T.slow,
+                      "listing_refused_for_line_feed_then_validated_independently": T.lf_refusals,
                       "samples": [{"label": tjobs[i][0], "tar2sqfs_exit": tres[i]["rc"], "stderr": tres[i].get("stderr", "")[-120:]}
                                   for i in (0, len(tjobs) // 3, len(tjobs) // 2, len(tjobs) - 1)]}
     nontriv = sum(1 for r in tres if r["rc"] not in (0, None)) + sum(1 for r in gres if r["rc"] != 0)
@@ -962,7 +1028,7 @@ def replay(ctx, path):
         T = TL.Tools(ctx)
         data = base64.b64decode(rp["data_b64"])
         expect = [m.encode() for m in rp["expect_members"]] if rp.get("expect_members") else None
-        res = T.run_tar(data, expect, timeout=TL.TIMEOUT * 3)
+        res = T.run_tar(data, expect, timeout=TL.TIMEOUT * 3, opts=rp.get("opts") or (), must_reject=rp.get("must_reject"))
         print("label :", rp.get("label"), "bytes:", len(data))
         print("lister:", res.get("list_rc"), (res.get("listing") or [])[-3:])
         print("tar2sqfs exit:", res.get("rc"), "stderr:", res.get("stderr", "")[-300:])
@@ -971,7 +1037,8 @@ def replay(ctx, path):
         return 1 if res["bad"] else 0
     if rp.get("unit") == "tool-gen":
         T = TL.Tools(ctx)
-        res = T.run_gen(rp.get("pack"), rp.get("sort"), rp.get("xattr"), timeout=TL.TIMEOUT * 3)
+        res = T.run_gen(rp.get("pack"), rp.get("sort"), rp.get("xattr"), timeout=TL.TIMEOUT * 3, mode=rp.get("mode") or "D",
+                        must_accept=rp.get("must_accept"))
         print("label :", rp.get("label"))
         print("gensquashfs exit:", res["rc"], "stderr:", res["stderr"][-300:])
         for clause, detail in res["bad"]:
